@@ -95,11 +95,11 @@ impl InputVariant {
     fn with_inherited(mut self, parent: &Core) -> Self {
         if self.attr_name.is_none() {
             // The `r#` of a raw identifier is spelling, not part of the variant's name.
-            self.attr_name = Some(
-                parent
-                    .rename_rule
-                    .apply_to_variant(self.ident.unraw().to_string()),
-            );
+            self.attr_name = Some(crate::options::apply_rename_rule(
+                parent.rename_rule,
+                self.ident.unraw().to_string(),
+                false,
+            ));
         }
 
         if self.allow_unknown_fields.is_none() {
